@@ -16,15 +16,15 @@ ORACLE = {
     "C01": "dot test <Ax,y> = <x,A.H y> (exact on Gaussian integers where arithmetic is exact, 1e-6 relative for FFT/NUFFT/wavelet/KB), shapes swapped, A.H.H = A, real-input branch; all Linop classes, MRI factories, random trees; regression streams for the repaired defects",
     "C02": "runtime stream: byte snapshots of every ndarray argument and captured array, np.shares_memory vs IR alias claims, repeated application (also after .H/.N), A(0) = 0 with recycled memory, exact linearity on Gaussian integers incl. real-dtype x, y with complex a",
     "C03": "dense matrix of the real tree (basis vectors) vs numpy block-matrix expression of its parts; A(x).shape = A.oshape; misfits must raise; inputs of the advertised rank whose shape differs from ishape must be rejected at application",
-    "C04": "A.N(x) vs A.H(A(x)) for all classes/trees, all 1-D block layouts up to length 7; ArrayToBlocks in 1-3 D: A.H(A(x)) = A.N(x) = cover * x with the brute-force cover count (incl. stride == block with a non-dividing extent); BlocksToArray.N(1) = 1 iff B <= S or one block; Toeplitz NUFFT within 6 % / 0.6 %",
+    "C04": "A.N(x) vs A.H(A(x)) for all classes/trees, all 1-D block layouts up to length 7; ArrayToBlocks in 1-3 D: A.H(A(x)) = A.N(x) = cover * x with the brute-force cover count (incl. stride == block with a non-dividing extent); BlocksToArray.N(1) = 1 iff B <= S or one block; Toeplitz NUFFT within 6 % / 0.6 %; Toeplitz normal judged against the NUFFT's OWN measured accuracy (eps = error of the same-parameter NUFFT against the exact NUDFT / Gram matrix; demand err <= 40 max(eps, 5e-6) scale, calibrated margin > 12x) for 18 oversamp/width pairs incl. high-accuracy ones, leading batch axes, histories of 1-4 live NUFFT objects sharing coordinates with different batch shapes / kernels / toeplitz flags, coordinate and data dtypes and layouts",
     "C05": "explicit complex128 DFT-matrix product incl. centre pad/crop in 1-4 dims, round trip, norm, dtype preservation, A.N(x) = x",
     "C06": "exact NUDFT vs sp.nufft: per-coordinate row error of the implementation matrix (< 3 % defaults, < 0.3 % oversamp 2), adjoint dot test 1e-6 over oversamp x width, periodicity (skipped at float window-edge ties), batch axes / Linops; Toeplitz normal: NUFFT(oversamp=2, width 7/8, toeplitz=True).N(x) vs A.H(A(x)) within 3e-4 (clean maximum 2.6e-5; a psf built with another kernel deviates by > 1.6e-3); correspondence stream 'identity': real nufft / nufft_adjoint matrices vs NUDFT x apodisation x kernel sum (driver window data) at 1e-9",
-    "C07": "direct evaluation of the documented kernel sum in numpy, scipy.special.i0 for Kaiser-Bessel (2.5e-7), duplicates/wrapped contributions add",
+    "C07": "direct evaluation of the documented kernel sum in numpy, scipy.special.i0 for Kaiser-Bessel (2.5e-7), duplicates/wrapped contributions add; inputs handed over as float32 / integer coordinate dtypes, float32 / complex64 / integer data, Fortran / strided / negative-stride layouts, scaled magnitudes, width / param as Python / numpy scalars, lists, tuples, arrays; entry points function, Linop, adjoint of the dual Linop, interleaved live Linops; coordinates up to 2^27 grid units away and beyond 2^31; support-edge raster class (rounding-undecidable taps accepted either way, exact ties strict, non-finite output never accepted)",
     "C08": "independent nested-sum reference, exact integer dot tests for both adjoints, shapes, mixed real/complex dtypes (rejected with TypeError or correct, never silently real), through the functions, the four Linop classes and .H of each",
     "C09": "index loops written from the statement (pure numpy), exact equality, functions and Linops",
     "C10": "round trip, norm preservation, adjoint identity (1e-8) through sp.fwt/iwt and linop.Wavelet/.H/.H.H for every orthogonal wavelet x shapes x axes x levels x real/complex; advertised shape",
     "C11": "Fenchel-Young / normal-cone certificates composed over the nesting, objective vs perturbations, projection inequality, feasible => unchanged, idempotence, shape; deepest failing call blamed",
-    "C12": "exact rationals: Krylov optimum by A-orthogonal projection, r = b - A x, monotone A-norm error, exact solution within n updates, caller's array, stop on non-positive curvature; preconditioners incl. objects returning their input",
+    "C12": "exact rationals: Krylov optimum by A-orthogonal projection, r = b - A x, monotone A-norm error, exact solution within n updates, caller's array, stop on non-positive curvature; preconditioners incl. objects returning their input; histories of 2-3 live solvers (lockstep, late start, interleaved, sequential, warm start on the previous solver's array; shared b / operator objects) each judged on its own system, interference key when a solver's x / r / p changes without its own update; operators and preconditioners returning their argument, a view of it or a re-used buffer; Fortran / strided / negative-stride / column-view x and b with sentinel cells; integer / real b with complex x; power-of-two scaled A, b, P",
     "C13": "planted-solution instances (g in {0, l2^2, l1, box}, real/complex, ill-conditioned, Nesterov's tridiagonal; operators incl. ones returning their argument): descent, both rates, saddle fixed point, Fejer monotonicity, convergence with and without acceleration, in-place identity",
     "C14": "objective gap to a reference optimum (exact solve / KKT-verified enumeration) <= 1e-6 for every supported combination (still-shrinking gaps are inconclusive), cross-solver agreement, unsupported combinations raise, y and z bytes unchanged",
     "C15": "loop bound and counter for the canonical loop and App.run (watchdog for non-termination); at an early done() with tol = 0 one extra update on a deep copy must leave the solution unchanged (stalling families: zero init + l1 + small sigma; box under momentum; saturating prox on both sides); PowerMethod monotone and <= lambda_max",
@@ -32,7 +32,7 @@ ORACLE = {
     "C17": "per-voxel invariants on random / birdcage / low-rank k-space (norm in {1, 0}, zero exactly where eig <= crop incl. crop equal to an observed eigenvalue, coil 0 real >= 0, eig in [0, 1+1e-6]); recovery vs rss-normalised maps at 1e-2",
     "C18": "values in {0,1}; |size/sum - accel| < tol or ValueError; calibration block sampled; nothing outside the ellipse; same arguments + seed => same mask also after other calls; numpy global RNG state identical before/after; watchdog for hangs",
     "C19": "unitarity 1e-9, zero pulse, composition for all five simulators (abrm also with balanced=True); design -> simulate round trip through ab2rf (1e-6 on exact pairs) and b2rf / dzrf (1e-3); simulate -> design on the real code only: abrm_hp / blochsim at 2n equispaced frequencies, inverse DFT = the coefficients of (A, B) (upper n must vanish: degree < n), ab2rf of them in its own convention must return the pulse (1e-6)",
-    "C20": "first/last sample 0, sum(trap) dt = area (1e-9), |g| <= gmax, |dg|/dt <= dgdt (1e-9 slack) over the quantified ranges incl. regime boundary and ceiling ties; min_trap_grad flat-top area; spokes_grad limits and k-space increments inside its domain (every blip fits into one slice-select lobe), what the real code does outside it (np.vstack raises / previous spoke overwritten) recorded as an observation",
+    "C20": "first/last sample 0, sum(trap) dt = area (1e-9), |g| <= gmax, |dg|/dt <= dgdt (1e-9 slack) over the quantified ranges incl. regime boundary and ceiling ties; min_trap_grad flat-top area; spokes_grad limits and k-space increments inside its domain (every blip fits into one slice-select lobe), what the real code does outside it (np.vstack raises / previous spoke overwritten) recorded as an observation; scalar argument types (Python / numpy float and int), spoke locations as float32 / integer arrays in C / Fortran / strided / read-only layouts, the designer calls made inside spokes_grad observed, call histories (repeats, sweeps with 1-ulp neighbours, caller edits of returned arrays, kept results re-examined) confirmed in fresh interpreters",
 }
 
 
